@@ -38,6 +38,43 @@ def main():
     expect(conf[2]['verdict'] == 'REJECT' and conf[2]['field'] == 'vote' and conf[2]['at'] == k + 1, 'tally +1 unit: conformance rejects at that action, field vote')
     expect(conf[3]['verdict'] == 'REJECT', 'dropped action: conformance rejects')
     expect(any(cl in ('tally', 'surplus', 'exclusion', 'range') for _, cl, _ in verd[4]), 'ballot weight +1 unit: a C06 clause fails')
+    # every shaped generator produces a valid election for every seed (a generator that throws would be a machinery failure
+    # of whichever check draws that seed)
+    import random, gen
+    bad = []
+    for name, f in sorted(gen.SHAPES.items()):
+        for sd in range(400):
+            try:
+                pr = f(random.Random(sd))
+                wd = set(pr.get('withdrawn') or ())
+                elig = [c for c in range(1, pr['nc'] + 1) if c not in wd]
+                nb = sum(m for m, r in pr['lines'] if any(c not in wd for c in r)) + sum(m for m, r in pr.get('eqlines') or () if any(c not in wd for g in r for c in g))
+                assert 1 <= pr['seats'] <= len(elig), 'seats'
+                assert nb >= len(elig), 'ballots'
+                assert all(m >= 1 and len(set(r)) == len(r) and r and all(1 <= c <= pr['nc'] for c in r) for m, r in pr['lines']), 'lines'
+                assert sorted(pr['tie']) == list(range(1, pr['nc'] + 1)), 'tie'
+                drive.mkblt(**pr)
+            except Exception as e:        # noqa
+                bad.append('%s seed %d: %s %s' % (name, sd, type(e).__name__, e))
+                break
+    import blt as bltmod, pairs
+    for sd in range(300):
+        try:
+            r = random.Random(sd)
+            e = bltmod.abstract_election(r, maxc=6 if sd % 10 else 9)
+            bltmod.words_of(bltmod.render_wf(r, e))
+            bltmod.denote(e)
+            for kw in (dict(wd=True, und=True), dict(wd=True, eq=True), dict(wd=True, wdmin=3), dict(full=True), dict(maxc=5, maxlines=6, maxm=3, wd=True, eq=(sd % 3 == 1))):
+                pr = gen.randprofile(r, **kw)
+                drive.denotation(pr)
+                pairs.present(r, pr, nicks=bool(sd % 2))
+                if pr['withdrawn']:
+                    pairs.deleted(pr)
+                pairs.permuted(r, pr)
+        except Exception as e:            # noqa
+            bad.append('reader/pair generators seed %d: %s %s' % (sd, type(e).__name__, e))
+            break
+    expect(not bad, 'all %d shaped generators yield valid elections for 400 seeds each; reader / presentation / pair generators run for 300 seeds %s' % (len(gen.SHAPES), bad[:3]))
     return 0 if ok else 1
 
 
